@@ -67,3 +67,67 @@ theorem runBlocks_split (pol : Int) (pre post : List Block) (b : Block) (s : St)
       exact ih _
 
 end Edges
+
+namespace Edges
+
+/-- A block that is only a tone / pulse sequence without a declared level (TZX 0x12, 0x13). -/
+def pulseBlock (P : List (Nat × Nat)) : Block := { timings := { pulses := P }, data := [], keys := none }
+
+theorem emit_append (a b : List Nat) (s : List Int × Int) : emit (a ++ b) s = emit b (emit a s) := by
+  induction a generalizing s with
+  | nil => rfl
+  | cons d ds ih =>
+    obtain ⟨e, t⟩ := s
+    simp only [List.cons_append, emit]
+    exact ih _
+
+theorem expand_append (P Q : List (Nat × Nat)) : expand (P ++ Q) = expand P ++ expand Q := by
+  simp [expand]
+
+theorem stepBlock_pulseBlock (pol : Int) (P : List (Nat × Nat)) (s : St) :
+    stepBlock pol false (pulseBlock P) s =
+      { s with edges := (emit (expand P) (s.edges, s.t)).1, t := (emit (expand P) (s.edges, s.t)).2 } := by
+  have ha : ∀ s', pausePhase pol false (pulseBlock P) s' = s' := by
+    intro s'; simp [pausePhase, pulseBlock]
+  have hb : ∀ s', dataPhase pol false (pulseBlock P) s' = s' := by
+    intro s'; simp [dataPhase, pulseBlock]
+  have hk : setKeys (pulseBlock P) s = s := by simp [setKeys, pulseBlock]
+  unfold stepBlock
+  rw [ha, hb, hk]
+  unfold pulsePhase
+  by_cases hP : P = []
+  · subst hP; simp [pulseBlock, expand, emit]
+  · simp [pulseBlock, hP, checkPolarity]
+
+theorem stepBlock_pulseBlock_append (pol : Int) (P Q : List (Nat × Nat)) (s : St) :
+    stepBlock pol false (pulseBlock Q) (stepBlock pol false (pulseBlock P) s) =
+      stepBlock pol false (pulseBlock (P ++ Q)) s := by
+  simp only [stepBlock_pulseBlock, expand_append, emit_append]
+
+/-- Two consecutive pulse-only blocks, neither of them the last block of the tape, are
+the same as one block with the concatenated pulses. -/
+theorem runBlocks_pulse_split (pol : Int) (pre post : List Block) (P Q : List (Nat × Nat)) (s : St)
+    (hpost : post ≠ []) :
+    runBlocks pol (pre ++ [pulseBlock P, pulseBlock Q] ++ post) s =
+      runBlocks pol (pre ++ [pulseBlock (P ++ Q)] ++ post) s := by
+  obtain ⟨c, r, rfl⟩ : ∃ c r, post = c :: r := by
+    cases post with
+    | nil => exact absurd rfl hpost
+    | cons c r => exact ⟨c, r, rfl⟩
+  induction pre generalizing s with
+  | nil =>
+    show runBlocks pol (c :: r) (stepBlock pol false (pulseBlock Q) (stepBlock pol false (pulseBlock P) s)) =
+      runBlocks pol (c :: r) (stepBlock pol false (pulseBlock (P ++ Q)) s)
+    rw [stepBlock_pulseBlock_append]
+  | cons a pre' ih =>
+    cases pre' with
+    | nil =>
+      simp only [List.cons_append, List.nil_append] at ih ⊢
+      rw [runBlocks_cons_cons, runBlocks_cons_cons]
+      exact ih _
+    | cons a' pre'' =>
+      simp only [List.cons_append] at ih ⊢
+      rw [runBlocks_cons_cons, runBlocks_cons_cons]
+      exact ih _
+
+end Edges
